@@ -375,6 +375,18 @@ class ModelCompiler:
                     model.cells[term])
                 if cell.formula is not None:
                     terms_to_copy.extend(cell.formula.terms)
+            else:
+                # A defined name used in a formula: the term is the name,
+                # prefixed with the sheet of the formula. Copy the name and
+                # follow the cell or range it is bound to.
+                name = term.rsplit('!', 1)[-1]
+                if (term not in model.cells and term not in model.ranges
+                        and name in model.defined_names):
+                    if name not in extracted_model.defined_names:
+                        extracted_model.defined_names[name] = copy.deepcopy(
+                            model.defined_names[name])
+                    terms_to_copy.append(
+                        model._defn_address(model.defined_names[name]))
 
         extracted_model.build_code()
 
